@@ -105,7 +105,9 @@ def Open(tag="el", define=(), sw=NOE, cs=NOE, cond=NOE, rep=None, sub=None, omit
         "k": "open", "tag": tag,
         "def": [{"g": bool(g), "n": n, "e": e} for g, n, e in define],
         "sw": sw, "cs": cs, "cond": cond,
-        "rep": {"m": "yes", "g": bool(rep[0]), "n": rep[1], "e": rep[2]} if rep else {"m": "no", "g": False, "n": "", "e": NOE},
+        "rep": {"m": "yes", "g": bool(rep[0]), "n": rep[1] if isinstance(rep[1], str) else rep[1][0],
+                "ns": [rep[1]] if isinstance(rep[1], str) else list(rep[1]), "e": rep[2]} if rep
+        else {"m": "no", "g": False, "n": "", "ns": [], "e": NOE},
         "sub": {"m": sub[0], "s": bool(sub[1]), "e": sub[2]} if sub else {"m": "none", "s": False, "e": NOE},
         "omit": ({"m": "yes", "e": NOE} if omit is True else {"m": "expr", "e": omit}) if omit is not None else {"m": "no", "e": NOE},
         "sattr": [({"n": n, "key": n.lower()} if isinstance(n, str) else
@@ -185,3 +187,7 @@ def wrap(w, e):
 
 def attr(e, a):
     return {"x": "attr", "e": e, "a": a}
+
+
+def RANGE(n):
+    return {"t": "range", "n": n}
